@@ -147,8 +147,17 @@ def cases(draw, tier="quick"):
             "points": pts, "config": cfg, "order2": order2, "newp": newp, "order3": order3}
 
 
+@st.composite
+def special_cases(draw):
+    which = draw(st.sampled_from(["bigmag", "bigmag", "wide"]))
+    env, recipe, order, pts = draw(gen.bigmag() if which == "bigmag" else gen.wide())
+    return {"env": env, "exprs": [recipe], "strata": ["general"], "order": order, "vstratum": "perm" if which == "bigmag" else "decl",
+            "points": pts, "config": "default", "order2": None, "newp": {}, which: True}
+
+
 def strategy(tier):
-    return cases(tier)
+    return st.one_of(cases(tier), cases(tier), cases(tier), cases(tier), cases(tier), cases(tier), cases(tier), cases(tier), cases(tier),
+                     special_cases())
 
 
 def sample_repr(case):
@@ -211,7 +220,7 @@ def _solver_stage(case, env, exprs, es, pv_cur, classes):
         refs, shadows, ok = [], [], True
         for r in exprs:
             j, sc = jet_ref(env, r, pnames, pt, pv_cur, second=False)
-            if not sc.ok or sc.maxabs > 1e6 or sc.sing < 0.05:
+            if not sc.ok or sc.maxabs > (1e150 if case.get("bigmag") else 1e6) or sc.sing < 0.05:
                 ok = False
                 break
             refs.append(j.g)
@@ -274,7 +283,7 @@ def check(case):
             refs, shadows, ok = [], [], True
             for r in exprs:
                 j, sc = jet_ref(env, r, order, pt, pv, second=False)
-                if not sc.ok or sc.maxabs > 1e6 or sc.sing < 0.05:
+                if not sc.ok or sc.maxabs > (1e150 if case.get("bigmag") else 1e6) or sc.sing < 0.05:
                     ok = False
                     break
                 refs.append(j.g)
@@ -328,7 +337,7 @@ def check(case):
                 refs, shadows, ok = [], [], True
                 for r in exprs:
                     j, sc = jet_ref(env, r, od, pt, pv_, second=False)
-                    if not sc.ok or sc.maxabs > 1e6 or sc.sing < 0.05:
+                    if not sc.ok or sc.maxabs > (1e150 if case.get("bigmag") else 1e6) or sc.sing < 0.05:
                         ok = False
                         break
                     refs.append(j.g)
